@@ -681,10 +681,13 @@ theorem limits_step (cfg : LCfg) (s : LSt) (op : LOp) : LimitsOk cfg.layers (lre
   refine ⟨?_, ?_⟩
   · intro x hw hok happ
     cases op with
-    | write y c w =>
+    | write y c w cl =>
       simp only [lrecOf, Option.some.injEq] at hw
       subst hw
       simp only [lrecOf, lstep1, lstep, checkLimits_reset] at hok happ ⊢
+      by_cases hro : (cl && cfg.readonly) = true
+      · simp [hro, lfail] at hok
+      simp only [hro, Bool.false_eq_true, if_false] at hok ⊢
       by_cases hr : inRange cfg y = true
       · by_cases hc : (runChecks (checkLimits cfg s y) c cfg.layers 0).ok = true
         · have hlim : checkLimits cfg s y = true := by
@@ -729,7 +732,7 @@ theorem limits_step (cfg : LCfg) (s : LSt) (op : LOp) : LimitsOk cfg.layers (lre
         have : decide (a ≤ b) = false := by simp only [decide_eq_false_iff_not]; exact Int.not_le.mpr hba
         simp [this]
       simp [lrecOf, lstep1, lstep, hv, lfail, limitsOf]
-    | write y c w => simp [lrecOf] at hs
+    | write y c w cl => simp [lrecOf] at hs
     | writeMin y => simp [lrecOf] at hs
     | writeMax y => simp [lrecOf] at hs
     | driverAssign y => simp [lrecOf] at hs
@@ -755,9 +758,9 @@ theorem limits_enforced (cfg : LCfg) (v0 : Val) (e1 e2 e3 e4 : Bool) (pre : List
 its own, every accepted write is inside all limit parameters that exist (there is at least one), whatever the classes
 they are declared in. -/
 theorem limits_enforced_plain (cfg : LCfg) (v0 : Val) (e1 e2 e3 e4 : Bool) (pre : List LOp) (x : Val) (c : List CRes) (w : WRes Val)
-    (hown : ∀ l ∈ cfg.layers, l.ownCheck = false)
+    (cl : Bool) (hown : ∀ l ∈ cfg.layers, l.ownCheck = false)
     (hlim : (cfg.hasMin || cfg.hasMax || cfg.hasLimits) = true)
-    (hok : (lstep1 cfg (lexec cfg (linit cfg v0 e1 e2 e3 e4) pre) (.write x c w)).ok = true) :
+    (hok : (lstep1 cfg (lexec cfg (linit cfg v0 e1 e2 e3 e4) pre) (.write x c w cl)).ok = true) :
     Within (limitsOf cfg (lexec cfg (linit cfg v0 e1 e2 e3 e4) pre)) x := by
   have hnone : ∀ (layers : List Layer) (i : Nat) (lim : Bool), (∀ l ∈ layers, l.ownCheck = false) →
       (runChecks lim c layers i).stopAt = none := by
@@ -807,8 +810,8 @@ theorem limits_enforced_plain (cfg : LCfg) (v0 : Val) (e1 e2 e3 e4 : Bool) (pre 
             exact List.getElem_mem hb'
           have := (List.any_eq_false.1 hf) _ hm
           simpa using this
-  have happ : AutoApplies cfg.layers (lrecOf cfg (lexec cfg (linit cfg v0 e1 e2 e3 e4) pre) (.write x c w)).stopAt := by
-    have hst : (lrecOf cfg (lexec cfg (linit cfg v0 e1 e2 e3 e4) pre) (.write x c w)).stopAt = none := hnone _ _ _ hown
+  have happ : AutoApplies cfg.layers (lrecOf cfg (lexec cfg (linit cfg v0 e1 e2 e3 e4) pre) (.write x c w cl)).stopAt := by
+    have hst : (lrecOf cfg (lexec cfg (linit cfg v0 e1 e2 e3 e4) pre) (.write x c w cl)).stopAt = none := hnone _ _ _ hown
     rw [hst]
     have hownAt : ∀ a, (cfg.layers.getD a default).ownCheck = false := by
       intro a
@@ -826,7 +829,7 @@ theorem limits_enforced_plain (cfg : LCfg) (v0 : Val) (e1 e2 e3 e4 : Bool) (pre 
       exact ⟨a, ha, ⟨hownAt a, Or.inr (Or.inl hf)⟩, fun j hj => by cases hj⟩
     · obtain ⟨a, ha, hf⟩ := hex (·.declLimits) cfg.layers hlim
       exact ⟨a, ha, ⟨hownAt a, Or.inr (Or.inr hf)⟩, fun j hj => by cases hj⟩
-  exact ((limits_step cfg _ (.write x c w)).1 x rfl hok happ).1
+  exact ((limits_step cfg _ (.write x c w cl)).1 x rfl hok happ).1
 
 /-- `_max` and `_limits` declared in a subclass of the class of `<p>` -/
 def lcfg : LCfg := { lo := 0, hi := 100, layers := [{ declMax := true, declLimits := true }, {}], hasW := false }
